@@ -54,6 +54,10 @@ class HTarget(Maintainable):
 
     def get_work_order_capacity(self, tag):
         v = self.table[tag][0]
+        if isinstance(v, list):          # state-dependent need: cycles per query (asked once, at creation, by a correct library)
+            i = self.ncalls.get(('cap', tag), 0)
+            self.ncalls[('cap', tag)] = i + 1
+            v = v[i % len(v)]
         self.w.tlog.append(('cap', self.name, tag, v))
         return v
 
